@@ -5,7 +5,7 @@ from __future__ import annotations
 import ast
 from typing import Dict, List, Set
 
-from ..astutil import calls_in, const_str, dotted, name_stores, raises_of, unparse, walk_local, walk_stmts
+from ..astutil import calls_in, const_str, dotted, name_stores, own_exprs, raises_of, unparse, walk_local, walk_stmts
 from ..report import Registry, sub
 from ._helpers_rules_d import call_nodes, callee_is, const_is, guard_atom_set, qualname
 
@@ -90,13 +90,39 @@ def r1(ctx):
     real = call_nodes(g, lambda c: callee_is(c, "orm_pre_session_exec") and c.args and const_is(c.args[-1], False))
     conn = call_nodes(g, lambda c: callee_is(c, "self._connection_for_bind") or callee_is(c, "self.connection"))
     ctx.require(conn, "_execute_internal never obtains a connection")
-    good = bool(core) and all(guard_atom_set(g, n) == {("compile_state_cls is None", True)} for n in core)
+    # the only condition a Core autoflush may depend on: "no ORM compile-state plugin", spelled in any way
+    def _core_guard(n):
+        return {("compile_state_cls is None", True) if a == ("compile_state_cls", False) else a for a in guard_atom_set(g, n)}
+    good = bool(core) and all(_core_guard(n) <= {("compile_state_cls is None", True)} for n in core)
     ctx.check(good, f"{f.key}:core-autoflush", "Core statements are not autoflushed unconditionally (only condition allowed: no ORM compile-state plugin)",
-              "else-branch of `compile_state_cls is not None`: self._autoflush()", f.loc)
+              "self._autoflush() guarded by nothing but `compile_state_cls is None`", f.loc)
     w = g.always_preceded(conn[0], core + real)
     ctx.check(w is None and bool(real), f"{f.key}:autoflush-before-connection",
               "a connection can be obtained / the statement executed without autoflush (neither self._autoflush() nor orm_pre_session_exec(..., False) on the path)",
               "every path to the connection passes autoflush or the real pre-exec call", f.loc, w)
+    # every way the statement is handed to the database is dominated by an autoflush: one instance per execution exit
+    # (a method of the connection obtained above, or the compile state's orm_execute_statement)
+    conn_names = {nm for nm, v, st in name_stores(f.node) if isinstance(v, ast.Call) and (callee_is(v, "self._connection_for_bind") or callee_is(v, "self.connection"))}
+    ctx.require(conn_names, "_execute_internal does not bind the connection to a local")
+    exits: Dict[str, List[int]] = {}
+    for n in g.nodes:
+        if n.stmt is None or n.kind in ("with_exit", "handler", "join") or not isinstance(n.stmt, ast.stmt):
+            continue
+        for part in own_exprs(n.stmt):
+            for c in calls_in(part):
+                if isinstance(c.func, ast.Attribute) and isinstance(c.func.value, ast.Name) and c.func.value.id in conn_names:
+                    exits.setdefault(f"conn.{c.func.attr}", []).append(n.id)
+                elif callee_is(c, "orm_execute_statement"):
+                    exits.setdefault("orm_execute_statement", []).append(n.id)
+    ctx.require(len(exits) >= 2, f"_execute_internal: statement execution exits not understood ({sorted(exits)})")
+    for nm, nodes in sorted(exits.items()):
+        w = None
+        for nid in nodes:
+            w = w or g.always_preceded(nid, core + real)
+        ctx.check(w is None, f"{f.key}:autoflush-before[{nm}]",
+                  f"the statement can reach {nm}(...) on a path that passed neither self._autoflush() nor the real "
+                  f"orm_pre_session_exec(..., False) call: pending changes are not flushed before this query runs",
+                  f"autoflush / real pre-exec dominates {nm}()", f.loc, w)
     # --- refresh
     f = ctx.func(f"{SESSION}::Session.refresh")
     g = ctx.cfg(f)
